@@ -133,6 +133,9 @@ def _work(lines):
             r.setdefault("kidheads", kidheads)
             r.setdefault("tag", rec.get("tag"))
             if r["status"] in ("mismatch", "machinery"):
+                if "c" in t:
+                    from .modes_carrier import shared_binder_feature
+                    r.setdefault("shared_binder", "yes" if shared_binder_feature(t) else "no")
                 r.setdefault("term", t)
                 r.setdefault("exp", rec.get("exp"))
         out.append({"status": "_rec", "key": k, "leaf": leaf, "n": n,
@@ -263,3 +266,36 @@ class Replay:
             bad[m.get("prop")].add(m["key"])
         return [m for m in self.mismatches
                 if not any(k in bad[m.get("prop")] for k in m.get("kids", []))]
+
+
+def run_many(mode, specs, env=None, parallel=4, chunk=64):
+    """Run several lenses side by side (threads; each with its own worker pool) and merge.
+    specs: list of dicts(module=, cfg=, limit=, simulate=, timeout=)."""
+    from concurrent.futures import ThreadPoolExecutor
+    procs_each = max(2, 16 // parallel)
+
+    def one(spec):
+        rp = Replay(mode, procs=procs_each, env=env, chunk=chunk)
+        rp.run_lens(spec["module"], cfg=spec.get("cfg"), workers=procs_each, limit=spec.get("limit"),
+                    simulate=spec.get("simulate"), timeout=spec.get("timeout", 900))
+        return rp
+    with ThreadPoolExecutor(parallel) as ex:
+        parts = list(ex.map(one, specs))
+    out = Replay(mode, env=env)
+    for rp in parts:
+        out.counts.update(rp.counts)
+        for k, v in rp.by_tag.items():
+            out.by_tag[k].update(v)
+        out.mismatches.extend(rp.mismatches)
+        out.machinery.extend(rp.machinery)
+        out.states += rp.states
+        out.transitions += rp.transitions
+        out.records += rp.records
+        out.nontrivial += rp.nontrivial
+        out.samples.extend(rp.samples[:2])
+        out.tlc_runs.extend(rp.tlc_runs)
+        out.sigs.update(rp.sigs)
+        out.events.extend(rp.events)
+        out.fired.update(rp.fired)
+        out.skipped.update(rp.skipped)
+    return out
